@@ -947,6 +947,63 @@ func (ex *Exec) boxedComps(obj types.Object) []string {
 	return []string{"ptr." + sanitize(ex.sortOf(t).Name)}
 }
 
+// sortComparatorObligations: irreflexive, transitive, and incomparability is transitive, for arbitrary
+// indices into the slice as it is when sort.Slice is called (the comparator is executed symbolically).
+func (ex *Exec) sortComparatorObligations(st *State, pc *preparedCall, old Val) {
+	// ordinal of this call among the sort.Slice calls of the function, in source order
+	ord := 0
+	if ex.decl != nil {
+		ast.Inspect(ex.decl, func(m ast.Node) bool {
+			if c, ok := m.(*ast.CallExpr); ok && c.Pos() < pc.call.Pos() {
+				if sel, ok := unparen(c.Fun).(*ast.SelectorExpr); ok && (sel.Sel.Name == "Slice" || sel.Sel.Name == "SliceStable") {
+					if id, ok := unparen(sel.X).(*ast.Ident); ok && id.Name == "sort" {
+						ord++
+					}
+				}
+			}
+			return true
+		})
+	}
+	intT := types.Typ[types.Int]
+	n := app("s-len", old.T)
+	mk := func(tag string) Val {
+		c := ex.fresh("cmp_"+tag, SInt)
+		return Val{T: c, S: SInt, GoT: intT}
+	}
+	si, sj, sk := mk("i"), mk("j"), mk("k")
+	probe := st.clone()
+	ctx := len(probe.pc)
+	for _, v := range []Val{si, sj, sk} {
+		probe.assume(and(app("<=", "0", v.T), app("<", v.T, n)))
+	}
+	less := func(a, b Val) string {
+		p := probe.clone()
+		base := len(p.pc)
+		var cases []string
+		ex.callClosure(p, pc.args[1].Clo, []Val{a, b}, func(st3 *State, rv []Val) {
+			if len(rv) == 1 {
+				cases = append(cases, and(append(append([]string(nil), st3.pc[base:]...), rv[0].T)...))
+			}
+		})
+		if len(cases) == 0 {
+			return "false"
+		}
+		return or(cases...)
+	}
+	lii := less(si, si)
+	lij, lji := less(si, sj), less(sj, si)
+	ljk, lkj := less(sj, sk), less(sk, sj)
+	lik, lki := less(si, sk), less(sk, si)
+	add := func(label, goal string) {
+		ex.queries = append(ex.queries, &Query{Name: fmt.Sprintf("%s#sort-comparator[%d.%s]", ex.name, ord, label), Path: ex.paths, Assumes: append([]string(nil), probe.pc[ctx:]...), Goal: goal, Pos: ex.posStr(pc.call.Pos()), Property: ex.props})
+	}
+	// the three facts are stated without the path condition: a comparator is a strict weak order because
+	// of what it compares, not because of where it is called (and string orders are hard enough alone)
+	add("irreflexive", not(lii))
+	add("transitive", implies(and(lij, ljk), lik))
+	add("ties-transitive", implies(and(not(lij), not(lji), not(ljk), not(lkj)), and(not(lik), not(lki))))
+}
+
 // sortSliceIntrinsic models sort.Slice(x, less) / sort.SliceStable for a literal comparator:
 // x becomes a permutation of its old value (trusted), and it is sorted with respect to the
 // comparator AS WRITTEN IN THE SOURCE: for all a < b the comparator, executed symbolically on
@@ -961,6 +1018,10 @@ func (ex *Exec) sortSliceIntrinsic(st *State, pc *preparedCall, k func(*State, [
 	if !got || old.S.K != KSlice {
 		ex.oof(pc.call.Pos(), "sort.Slice on a non-slice")
 	}
+	// The model below ("no later element is less than an earlier one") is what sort.Slice guarantees only
+	// for a strict weak order, and is contradictory for a comparator such as x[i] <= x[j]: that the literal
+	// comparator IS a strict weak order on the elements of the slice is an obligation of the caller.
+	ex.sortComparatorObligations(st, pc, old)
 	nv := ex.freshWf(st, "sorted", ex.typeOf(xe))
 	n := app("s-len", nv.T)
 	st.assume(eq(n, app("s-len", old.T)))
